@@ -487,6 +487,12 @@ class SymRat:
 
 
 class _IntOps:
+    def __copy__(self):
+        return self
+
+    def __deepcopy__(self, memo):
+        return self
+
     __slots__ = ()
     _vf_sym = True
 
@@ -735,6 +741,13 @@ def term8(x):
 
 class SymBytes(bytes):
     """bytes whose items are 8-bit terms; the length is concrete per path"""
+
+    def __copy__(self):
+        return self
+
+    def __deepcopy__(self, memo):
+        return self
+
 
     _vf_sym = True
 
